@@ -196,7 +196,7 @@ def source_backpressure(ctx, n, cases=None):
 
 def run(ctx):
     ctx.audit(extra_modules=lean_extra("C03"))
-    n = 150 if not ctx.thorough() else 5000
+    n = 150 if not ctx.thorough() else 3000
     graphcheck.run_family(ctx, n, ASPECTS, CHECKS, SIGS_A, modes=("async",), corpus=CORPUS_A, flavours=("future", "coro", "tornado"))
     A.sweep(ctx, n, KINDS, ["backpressure"], SIGS_B, corpus=CORPUS_B)
     for m in corr_modules():
